@@ -227,6 +227,48 @@ impl TimedCache {
         }
     }
 
+    /// Put an item into the cache which was just *read* from the database (a cache fill), unless
+    /// the cache already holds a live (not expired) entry for it. Between the database read and
+    /// this call a write may have gone through the storage manager and cached a newer version of
+    /// the record; a fill must never replace that by the older version the read has returned.
+    pub async fn put_if_absent(&self, record: &DbRecord) {
+        self.batch_put_if_absent(std::slice::from_ref(record)).await;
+    }
+
+    /// Put a batch of items into the cache which were just *read* from the database, skipping
+    /// those for which the cache already holds a live entry. See [TimedCache::put_if_absent].
+    pub async fn batch_put_if_absent(&self, records: &[DbRecord]) {
+        self.clean().await;
+
+        for record in records.iter() {
+            if let DbRecord::Azks(azks_ref) = &record {
+                let mut azks_guard = self.azks.write().await;
+                if azks_guard.is_none() {
+                    *azks_guard = Some(DbRecord::Azks(azks_ref.clone()));
+                }
+            } else {
+                let key = record.get_full_binary_id();
+                let now = Instant::now();
+                match self.map.entry(key) {
+                    dashmap::mapref::entry::Entry::Occupied(mut entry) => {
+                        if entry.get().expiration <= now {
+                            entry.insert(CachedItem {
+                                expiration: now + self.item_lifetime,
+                                data: record.clone(),
+                            });
+                        }
+                    }
+                    dashmap::mapref::entry::Entry::Vacant(entry) => {
+                        entry.insert(CachedItem {
+                            expiration: now + self.item_lifetime,
+                            data: record.clone(),
+                        });
+                    }
+                }
+            }
+        }
+    }
+
     /// Flush the cache.
     pub async fn flush(&self) {
         self.map.clear();
